@@ -14,6 +14,10 @@ open TraitsVerif
 
 def WF (H : Hooks) : Prop := ∀ o, WFList (H.get o)
 
+theorem WF_empty : WF Hooks.empty := by
+  intro o k rc hm
+  simp [Hooks.empty, Hooks.get] at hm
+
 /-- weight of one item at `(o, q)` -/
 def wt (it : Item) (o : Observable) (q : NKey) : Nat := if it.1 = o then hit it.2 q else 0
 
